@@ -67,6 +67,9 @@ def gen_line(rng):
         # characters str.splitlines() cuts on but a text file read line by line does not, inside and at the end of a line
         x = rng.choice(["\x0b", "\x0c", "\x1c", "\x1d", "\x1e", "\x85", "\u2028", "\u2029"])
         return rng.choice(["PRINT \"a" + x + "b\"", "10 REM" + x, x + "20 X", "A" + x + "30 B" + x])
+    if r < 0.71:
+        # an ASCII number directly followed by decimal digits of other scripts (fullwidth, arabic-indic, devanagari): they are text, not part of the number
+        return rng.choice("123456789") + rng.choice(["", "0", "25"]) + rng.choice(["\uff10", "\uff19\uff11", "\u0663", "\u0967\u0966", "\u0e52"]) + rng.choice(["", " REM", "x"])
     if r < 0.73:
         n = rng.choice([255, 256, 257, 1024, 4096, 8192, 8193])
         return (rng.choice(["", "10 ", "REM "]) + "x" * n)[:n]
